@@ -27,7 +27,7 @@ fn c01_spec() -> CheckSpec {
     CheckSpec {
         property: "C01",
         level: "exploration",
-        rule: "one run = one session history Load(T0); (Edit*; Save; [Environment]; Reload)^k over a model, T0 a generated document from the frozen A2L 1.7.1 grammar table (whole file, fragment, file in the simulated FS, or a model built through new()/T::new()/push), Edit = push / field edit / removal / rename / optional child / reset_location / merge_modules / merge_includes / sort() / cleanup() / ifdata_cleanup() / sort_new_items(), saves and reloads through the in-memory VFS under the run's read-chunking schedule and hash seed. Oracles O1 reload succeeds, O2 model equality, O3 byte fixpoint, O4 same text under a second hash seed, O5 file = banner + text; fault configuration adds injected write/open/metadata/read faults with the relaxed oracle. Non-trivial: >= 1 full cycle and the document has a comment, non-ASCII text, hex/exponent number or IF_DATA, or the model was built/edited through the API. Distinct: (entry point, files used, cycles, lexical feature set, environment kinds, edits, fault kinds fired, hash-order class).",
+        rule: "one run = one session history Load(T0); (Edit*; Save; [Environment]; Reload)^k over a model, T0 a generated document from the frozen A2L 1.7.1 grammar table (whole file, fragment, file in the simulated FS, or a model built through new()/T::new()/push), Edit = push / field edit / removal / rename / optional child / reset_location / merge_modules / merge_includes / sort() / cleanup() / ifdata_cleanup() / sort_new_items(), saves and reloads through the in-memory VFS under the run's read-chunking schedule and hash seed. Oracles O1 reload succeeds, O2 model equality (the crate's ==, cross-checked on the first and every fourth cycle by element-wise Debug renderings without IF_DATA), O3 byte fixpoint, O4 same text under a second hash seed, O5 file = banner + text; fault configuration adds injected write/open/metadata/read faults with the relaxed oracle. Non-trivial: >= 1 full cycle and the document has a comment, non-ASCII text, hex/exponent number or IF_DATA, or the model was built/edited through the API. Distinct: (entry point, files used, cycles, lexical feature set, environment kinds, edits, fault kinds fired, hash-order class).",
         assumptions: vec![
             "generated documents are derived from a frozen copy of the grammar; a construct missing from it is never exercised",
             "position-restricted siblings (RESERVED in RECORD_LAYOUT) are generated in ascending position order: the writer's documented reordering is an input precondition, not a drift",
